@@ -62,7 +62,10 @@ def runAnalysis (inp : Json) : AnalysisRun :=
   let names : List (Nat × String) := (jarr inp "names").filterMap (fun p => match p with
     | .arr #[n, .str s] => some ((n.getNat?.toOption.getD 0), s)
     | _ => none)
-  let r := analyze cat raw names (jbool inp "positional")
+  let pre := jobj inp "preflight"
+  let r := do
+    if jhas inp "preflight" then preflight raw (jbool pre "early") (jbool pre "late")
+    analyze cat raw names (jbool inp "positional")
   let trig := paramTriggers cat raw names
   -- MySQL: IN / BETWEEN / LIKE … are converted to ast.TODO nodes, the placeholders inside them are lost
   let todo := engine == "mysql" && (raw.walk.any (·.isKind "TODO"))
@@ -75,6 +78,7 @@ def runAnalysis (inp : Json) : AnalysisRun :=
     let exp : List Edit := a.edits.map (fun e => ({ loc := e.location, old := e.old.toUTF8.toList, new := e.new.toUTF8.toList } : Edit))
     -- positional mode replaces the named edits by `$n -> ?` edits; not modelled here (C20 compares end to end)
     match mutate rawSQL (named ++ exp) with
+    | .error .panic => { trig := trig, result := .error "panic:source.Mutate: negative edit location", sql := none, model := Json.mkObj [("err", "panic")] }
     | .error _ => { trig := trig, result := .ok a, sql := none, model := Json.mkObj [("err", "other")] }
     | .ok expanded =>
       let sql := (stripComments expanded).1
@@ -83,6 +87,10 @@ def runAnalysis (inp : Json) : AnalysisRun :=
           ("params", Json.arr (a.params.map (fun p => Json.mkObj [("number", p.number),
             ("column", match p.column with | some c => colJson c | none => Json.null)])).toArray),
           ("columns", Json.arr (a.columns.map colJson).toArray)] }
+
+/-- after editing the text parseQuery re-parses it with the engine's parser (not modelled): a rejection
+there is outside the fragment the model predicts -/
+def reparseRejected (impl : Json) : Bool := (jstr impl "msg").startsWith "edited query syntax is invalid"
 
 /-- the implementation's observation restricted to what the model also predicts -/
 def implProjection (impl : Json) : Json :=
